@@ -17,7 +17,7 @@ import concurrent.futures as cf
 
 import vlib
 
-PROPS = ['Rangers.Props.C13', 'Rangers.Props.C13Facts', 'Rangers.Props.C13Prime', 'Rangers.Props.C13G1', 'Rangers.Props.C13Dkg']
+PROPS = ['Rangers.Props.C13', 'Rangers.Props.C13Facts', 'Rangers.Props.C13Prime', 'Rangers.Props.C13G1', 'Rangers.Props.C13Dkg', 'Rangers.Props.C13Codec', 'Rangers.Props.C13Round']
 DRIVERS = ['C13']
 META = dict(
     level='proof',
